@@ -77,6 +77,7 @@ class ExcModel:
         self.res = res
         self._repo_classes_cache: dict[str, list[ClassInfo]] | None = None
         self._anc_cache: dict[str, set[str]] = {}
+        self._alias_cache: dict[str, list[str]] = {}
 
     def _repo_class(self, name: str) -> list[ClassInfo]:
         if self._repo_classes_cache is None:
@@ -134,7 +135,28 @@ class ExcModel:
         if h.type is None:
             return ["BaseException"]
         ts = h.type.elts if isinstance(h.type, ast.Tuple) else [h.type]
-        return [ast.unparse(t).split(".")[-1] for t in ts]
+        out: list[str] = []
+        for t in ts:
+            name = ast.unparse(t).split(".")[-1]
+            if isinstance(t, ast.Name) and not self.known(name):
+                exp = self._alias_tuple(name)
+                if exp:
+                    out.extend(exp)
+                    continue
+            out.append(name)
+        return out
+
+    def _alias_tuple(self, name: str) -> list[str]:
+        """``_TRANSPORT_ERRORS = (BrokenPipeError, OSError, ...)`` style module constants used in except clauses."""
+        if name in self._alias_cache:
+            return self._alias_cache[name]
+        self._alias_cache[name] = []
+        for m in self.repo.modules_with_text(name + " ="):
+            v = m.constants.get(name)
+            if isinstance(v, ast.Tuple):
+                self._alias_cache[name] = [ast.unparse(e).split(".")[-1] for e in v.elts]
+                break
+        return self._alias_cache[name]
 
     def handler_covers(self, h: ast.ExceptHandler, cls: str) -> bool:
         return any(self.is_sub(cls, t) for t in self.handler_types(h))
